@@ -1,4 +1,5 @@
 mod c13;
+mod cellsearch;
 mod geocorr;
 mod geosearch;
 mod golden;
@@ -145,6 +146,8 @@ fn main() {
             let mut rng = util::Rng::new(seed ^ 0x5EA7C4);
             let res = match prop.as_str() {
                 "C13" => Some(c13::search_c13(&mut rng, thorough)),
+                "C01" => Some(cellsearch::search_c01(&mut rng, thorough)),
+                "C06" => Some(cellsearch::search_c06(&mut rng, thorough)),
                 "C17" => Some(geosearch::search_c17(&mut rng, thorough)),
                 "C18" => Some(geosearch::search_c18(&mut rng, thorough)),
                 "C19" => Some(geosearch::search_c19(&mut rng, thorough)),
